@@ -249,6 +249,21 @@ def scenarios(pid, tier, seed):
             sc = abort_then_rerun(base["tree"])
             if sc:
                 out.append(("rerun-after-abort", sc))
+    if pid in ("C04", "C08"):
+        # a nested scheduler fails in the first of two runs (timeout or critical job); the second run is aborted before it
+        # reaches that nested scheduler: what it reports must not be left over from the first run
+        J_, S_ = dyn_gen.J, dyn_gen.S
+        for i in range(max(20, n_r // 30)):
+            by_timeout = rng.random() < 0.5
+            inner = [J_("j", 3, h=1), J_("c", rng.choice([0, 1]), h=2, crit=True, exc=not by_timeout)]
+            nested = S_("n", inner, T=1 if by_timeout else None, crit=False, req=["g"], h=3)
+            kids = [J_("g", rng.choice([0, 1]), h=4, crit=True, exc=True), nested, J_("k", 1, h=5),
+                    J_("z", 1, h=6, req=["n"])]
+            rng.shuffle(kids)
+            sc = dict(tree=S_("top", kids, pure=rng.random() < 0.5), rerun=True,
+                      between=dict(attrs={"g": dict(exc=False)}, edges=[], removed=[], added_jobs=[], first_root=None,
+                                   inspect=[], shutdown=False))
+            out.append(("rerun-unreached", sc))
     if pid in ("C01", "C02", "C03", "C12"):
         # graphs inspected (exit_jobs, list, dot_format, closures, check_cycles), then edited, then run
         for sc in dyn_gen.targeted(pid, rng, n_t // 6) + [dyn_gen.gen_tree(rng, depth=rng.choice([1, 2])) for _ in range(n_r // 8)]:
